@@ -92,6 +92,13 @@ func (vm *VM) FindModuleByName(name string) *Module {
 	return vm.moduleGraph.GetModuleByID(moduleID)
 }
 
+// AddModuleDependency - record that current module imports an (already allocated) module
+func (vm *VM) AddModuleDependency(name string) {
+	if moduleID, exists := vm.moduleGraph.GetIDFromName(name); exists {
+		vm.moduleGraph.AddDependency(vm.csModuleID, name, moduleID)
+	}
+}
+
 func (vm *VM) CheckDepedency(name string) error {
 	moduleID, exists := vm.moduleGraph.GetIDFromName(name)
 	if exists {
